@@ -8,6 +8,8 @@
 //      -> ok <type'> <n'> data'.. [per pt: sense_orig sense_new upx upy upz dux duy duz udx udy udz]
 //   simpl <type> <n> data.. tol <npts> pts..
 //      -> ok <changed> <flipped> <type'> <n'> data'.. [per pt: sense_orig sense_new]
+//   simplc <type> <n> data.. tol <npts> pts..   (whole chain)
+//      -> ok <passes> <flipped> <type'> <n'> data'.. [per pt: sense_orig sense_new]
 //   mkrot ax ay az turn  -> ok r00..r22 det
 //   sperm s0 a0 s1 a1 s2 a2 <npts> pts..
 //      -> ok <code> [per pt: up(3) down_of_up(3) up_of_down(3)] m00..m22
@@ -190,6 +192,34 @@ int main()
                 {
                     Real3 p = rd3(is);
                     os << " " << sense_of(surf, p) << " " << sense_of(out, p);
+                }
+            }
+            else if (cmd == "simplc")
+            {
+                // the whole simplifier chain: apply until nothing changes (as RecursiveSimplifier does)
+                std::string t; is >> t;
+                auto data = verif::rdvec(is);
+                auto surf = make_surface(t, data);
+                double tol = rd(is);
+                Sense sense = Sense::inside;
+                VariantSurface cur = surf;
+                int passes = 0;
+                for (; passes < 8; ++passes)
+                {
+                    VariantSurface next = cur;
+                    bool changed = std::visit(
+                        [&](auto const& s) { return assign_simplified(SurfaceSimplifier{&sense, tol}(s), next); },
+                        cur);
+                    if (!changed) break;
+                    cur = next;
+                }
+                os << "ok " << passes << " " << (sense == Sense::inside ? 0 : 1);
+                print_surface(os, cur);
+                std::size_t npts; is >> npts;
+                for (std::size_t i = 0; i < npts; ++i)
+                {
+                    Real3 p = rd3(is);
+                    os << " " << sense_of(surf, p) << " " << sense_of(cur, p);
                 }
             }
             else if (cmd == "mkrot")
